@@ -167,9 +167,19 @@ lzma2_decode(void *coder_ptr, lzma_dict *restrict dict,
 		// coder->compressed_size later.
 		const size_t in_start = *in_pos;
 
+		// Don't let the LZMA decoder read past the end of this chunk.
+		// With corrupt input it could otherwise consume bytes that
+		// belong to the next chunk before the overrun is noticed, and
+		// then how much input was consumed and how much output was
+		// produced before LZMA_DATA_ERROR would depend on how
+		// the application has split the input and output buffers.
+		size_t in_stop = in_size;
+		if (in_size - in_start > coder->compressed_size)
+			in_stop = in_start + coder->compressed_size;
+
 		// Decode from in[] to *dict.
 		const lzma_ret ret = coder->lzma.code(coder->lzma.coder,
-				dict, in, in_pos, in_size);
+				dict, in, in_pos, in_stop);
 
 		// Validate and update coder->compressed_size.
 		const size_t in_used = *in_pos - in_start;
@@ -177,6 +187,14 @@ lzma2_decode(void *coder_ptr, lzma_dict *restrict dict,
 			return LZMA_DATA_ERROR;
 
 		coder->compressed_size -= in_used;
+
+		// If the LZMA decoder has got the whole chunk and there is
+		// still space in the dictionary but the decoder didn't finish,
+		// it would need more input than the chunk has: the chunk
+		// is corrupt.
+		if (ret == LZMA_OK && coder->compressed_size == 0
+				&& dict->pos < dict->limit)
+			return LZMA_DATA_ERROR;
 
 		// Return if we didn't finish the chunk, or an error occurred.
 		if (ret != LZMA_STREAM_END)
